@@ -140,6 +140,10 @@ struct ItemCfg {
 	stub: bool,
 	#[serde(default)]
 	stub_home: Option<String>,
+	/// R1: emit the selected methods of a trait impl in an inherent impl of the same type (header
+	/// `impl<G> Trait for Type` → `impl<G> Type`), so one method can be verified against the trait's clause
+	#[serde(default)]
+	as_inherent: bool,
 }
 
 #[derive(Deserialize, Clone, Debug)]
@@ -1182,7 +1186,7 @@ fn main() {
 		fn_meta: vec![],
 	};
 	ctx.out.buf.push_str(&format!(
-		"// GENERATED by /verif/tools/vx from {} (mode={}{}) — do not edit\n#![allow(unused)]\nuse vstd::prelude::*;\nuse std::collections::HashMap;\nuse std::collections::HashSet;\nverus! {{\n",
+		"// GENERATED by /verif/tools/vx from {} (mode={}{}) — do not edit\n#![allow(unused)]\nuse vstd::prelude::*;\nuse std::collections::HashMap;\nuse std::collections::HashSet;\nuse std::marker::PhantomData;\nverus! {{\n",
 		unit_path,
 		mode,
 		if canary { ", canary" } else { "" }
@@ -1256,6 +1260,14 @@ fn main() {
 				let (bc, _) = br(im.brace_token.span.close());
 				// header `impl … {`
 				let hdr_start = im.attrs.last().map(|a| br(a.span()).1).unwrap_or(whole.0);
+				if it.as_inherent {
+					if let Some((_, p, f)) = &im.trait_ {
+						let (ps, _) = br(p.span());
+						let (_, fe) = br(f.span());
+						edits.push(Edit { start: ps, end: fe, parts: vec![], rule: "R1".into(), seq: 0 });
+						*ctx.rules.entry("R1".into()).or_insert(0) += 1;
+					}
+				}
 				ranges.push((hdr_start, bo + 1));
 				let mut found_names = vec![];
 				for ii in &im.items {
@@ -1271,7 +1283,7 @@ fn main() {
 							let w = br(f.span());
 							let fc = it.fns.get(&name).cloned().unwrap_or_default();
 							let stub = if it.stub { Some(it.stub_home.clone().unwrap_or_default()) } else { None };
-							fn_edits(&mut ctx, src, &name, &f.attrs, &f.sig, &f.block, &fc, &it.replace, w, &mut edits, im.trait_.is_some(), stub);
+							fn_edits(&mut ctx, src, &name, &f.attrs, &f.sig, &f.block, &fc, &it.replace, w, &mut edits, im.trait_.is_some() && !it.as_inherent, stub);
 							ranges.push(w);
 						}
 						syn::ImplItem::Type(t) if sel.is_none() => ranges.push(br(t.span())),
